@@ -93,6 +93,8 @@ def strategy_case(draw):
         c["extra_tomo"] = draw(st.booleans())
     elif k == "trim":
         st_ = [draw(st.integers(1, 25)) for _ in range(3)]
+        if draw(st.integers(0, 5)) == 0:
+            st_ = [1, 1, 1]  # cropped at the far end only
         c["start"] = st_
         c["end"] = [s + draw(st.integers(0, 40)) for s in st_]
         c["as"] = draw(st.sampled_from(["list", "array"]))
@@ -364,7 +366,11 @@ def run(case):
             arg_masks = masks[0]
             mask_of = {t: masks[0] for t in listed}
         else:
-            listed = [t for t in listed if t <= nt] or [1]
+            # masks for a whole data set, list of a subset: a listed tomogram without any particle has its own mask too
+            # (an empty one, so that taking it for another tomogram's mask would remove everything there)
+            masks.append(np.zeros(tuple(shapes[0])))
+            if (nt + 1) in listed and case["mseed"] % 2 == 0:
+                listed = [nt + 1] + [t for t in listed if t != nt + 1]  # ... and may stand first
             arg_masks = [masks[t - 1] for t in listed]
             mask_of = {t: masks[t - 1] for t in listed}
         keep = []
